@@ -52,6 +52,31 @@ def plan(tier, seed):
                 for gc, tr in itertools.product((False, True), (True, False)):
                     g.append({"kind": "phys", "xtal": name, "mesh": mesh, "shift": sh, "gc": gc, "tr": tr})
         groups.append(g)
+    # histories inside one process: crystals whose point groups have the same order but different matrices, same mesh
+    # configuration, alternating (a cache keyed too coarsely would hand one crystal the other's mapping table)
+    for mesh in ([2, 2, 2], [3, 3, 3], [4, 4, 4], [2, 2, 3], [4, 4, 2]):
+        g = []
+        for sh, gc, tr in itertools.product((0, 7, 4), (False, True), (True, False)):
+            g.append({"kind": "grid-history", "mesh": mesh, "shift": sh, "gc": gc, "tr": tr, "ms": True, "fit": False,
+                      "sequence": ["sc-1", "NaCl-prim-2", "sc-1", "bct-conv-2", "hcp-2", "ortho-C-conv-2", "bct-conv-2", "rhomb-prim-2", "wurtzite-4",
+                                   "rhomb-prim-2", "mono-C-conv-4", "tri-P-1bar-2"]})
+        groups.append(g)
+    # Phonopy(is_symmetry=False) with force constants of lower symmetry than the structure; NAC with Born charges that
+    # phonopy has to symmetrise
+    for name in ("bct-conv-2", "hcp-2", "NaCl-prim-2", "rhomb-prim-2"):
+        g = []
+        for mesh in ([2, 2, 2], [3, 3, 3], [4, 4, 2], [3, 3, 2]):
+            for sh in (0, 7):
+                for gc in (False, True):
+                    g.append({"kind": "phys", "xtal": name, "mesh": mesh, "shift": sh, "gc": gc, "tr": True, "nosym": True})
+        groups.append(g)
+    for name in ("rhomb-prim-2", "wurtzite-4", "NaCl-prim-2", "mono-C-conv-4", "ortho-P-2"):
+        g = []
+        for mesh in ([2, 2, 2], [3, 3, 3], [4, 4, 2]):
+            for sh in (0, 7):
+                for gc in (False, True):
+                    g.append({"kind": "phys", "xtal": name, "mesh": mesh, "shift": sh, "gc": gc, "tr": True, "nac": "wang"})
+        groups.append(g)
     meta = {"alphabet": {"lattices": LATTICES, "meshes": len(meshes), "shifts": [str(s) for s in SHIFTS], "grid_configurations": nconf},
             "bound": "complete product", "exhaustive": True, "not_covered": ["mesh numbers above 4 (quick) / 6 (thorough)", "GeneralizedRegularGridPoints"]}
     return groups, meta
@@ -162,15 +187,35 @@ def run_grid(case, seed):
 
 
 def run_phys(case, seed):
-    if ("ph", case["xtal"]) not in _cache:
+    ck = ("ph", case["xtal"], bool(case.get("nosym")), case.get("nac"))
+    if ck not in _cache:
         c = phx.xtal(case["xtal"])
         S = [[2, 0, 0], [0, 2, 0], [0, 0, 2]] if len(c["symbols"]) <= 2 else [[1, 0, 0], [0, 1, 0], [0, 0, 1]]
-        ph = phx.make_phonopy(c, S, c["centring"][0] if c["centring"] else None)
-        ph.force_constants = phx.supercell_fc(ph, phx.model_for(ph, "short" if len(c["symbols"]) <= 2 else "nn", seed))
-        _cache[("ph", case["xtal"])] = ph
-    ph = _cache[("ph", case["xtal"])]
+        ph = phx.make_phonopy(c, S, c["centring"][0] if c["centring"] else None, is_symmetry=not case.get("nosym"))
+        fc = phx.supercell_fc(ph, phx.model_for(ph, "short" if len(c["symbols"]) <= 2 else "nn", seed))
+        if case.get("nosym"):
+            # lower the symmetry of the force constants (keep index-permutation symmetry and the sum rule): the object was
+            # told not to use crystal symmetry, so only time reversal may be used to reduce the mesh
+            g = np.random.default_rng(5 + seed)
+            pert = 0.2 * np.abs(fc).max() * g.normal(size=fc.shape)
+            pert = (pert + pert.transpose(1, 0, 3, 2)) / 2
+            n = len(pert)
+            pert[np.arange(n), np.arange(n)] -= pert.sum(axis=1)
+            fc = fc + pert
+        ph.force_constants = fc
+        if case.get("nac"):
+            g = np.random.default_rng(9 + seed)
+            nat = len(ph.primitive)
+            born = g.normal(size=(nat, 3, 3)) * 0.3 + np.array([np.eye(3) * (1.5 if i % 2 == 0 else -1.5) for i in range(nat)])
+            born -= born.mean(axis=0)
+            eps = np.eye(3) * 3.0 + 0.3 * g.normal(size=(3, 3))
+            eps = (eps + eps.T) / 2
+            ph.nac_params = {"born": born, "dielectric": eps, "factor": 14.4, "method": case["nac"]}
+        _cache[ck] = ph
+    ph = _cache[ck]
     shift = SHIFTS[case["shift"]]
-    tag = "shift=%s/gc=%s/tr=%s" % ("none" if shift is None else ("half" if all(abs(2 * x - round(2 * x)) < 1e-9 for x in shift) else "generic"), case["gc"], case["tr"])
+    tag = "shift=%s/gc=%s/tr=%s%s%s" % ("none" if shift is None else ("half" if all(abs(2 * x - round(2 * x)) < 1e-9 for x in shift) else "generic"), case["gc"], case["tr"],
+                                     "/is_symmetry=False" if case.get("nosym") else "", "/nac=%s" % case["nac"] if case.get("nac") else "")
     res = {}
     nir = {}
     for ms in (True, False):
@@ -196,5 +241,18 @@ def run_phys(case, seed):
     return dict(ok=True, resid=e, nontrivial=nontriv, transitions=2, outcome="ok:phys:%s" % ("reduced" if nontriv else "no-reduction"))
 
 
+def run_history(case, seed):
+    """The same mesh configuration for a sequence of crystals inside one process (replayable as a whole)."""
+    n = 0
+    for k, name in enumerate(case["sequence"]):
+        r = run_grid(dict(case, kind="grid", xtal=name), seed)
+        n += 1
+        if not r["ok"]:
+            r["sig"] = r["sig"].replace("C09/", "C09/history/")
+            r["msg"] = "step %d of sequence %s: %s" % (k, case["sequence"][:k + 1], r["msg"])
+            return r
+    return dict(ok=True, nontrivial=True, transitions=n, outcome="ok:grid-history")
+
+
 def run_group(cases, seed):
-    return [run_grid(c, seed) if c["kind"] == "grid" else run_phys(c, seed) for c in cases]
+    return [run_grid(c, seed) if c["kind"] == "grid" else (run_history(c, seed) if c["kind"] == "grid-history" else run_phys(c, seed)) for c in cases]
